@@ -10,20 +10,21 @@ exec(open('/verif/tools/manifest_table.py').read())
 
 # dimensions added after the second round of seeded changes (DESIGN.md section 8.3)
 ADDENDA = {
- "C02": "A share of runs passes --require-owner / --show-duplicates; hostile scalars on the last line of a file; quoted UTF-8 label names with regexp metacharacters.",
+ "C02": "A share of runs passes --require-owner / --show-duplicates; hostile scalars on the last line of a file; quoted UTF-8 label names with regexp metacharacters. Lone-CR documents (every position of the CR) are part of the stress set.",
  "C03": "Plus a stratum in which the base version of a touched file holds several identical copies of a rule, judged by counting (exactly min(base, head) copies keep an identical partner).",
  "C04": "Join templates include a many side that lost a label which a group_left/right(a, b) modifier copies back.",
- "C06": "Plus documents embedded one or two block scalars deep, and a caret monitor: the real InjectDiagnostics is rendered for sampled sub-ranges of every correctly positioned field (values with multi-byte characters mixed in) and the carets must sit under exactly the addressed characters.",
- "C07": "Plus pairs of comments for the same check (expired snooze before/after, same comment twice) and `pint watch` runs in which snoozes expire while the process lives, judged per iteration on the times pint itself recorded.",
- "C08": "Plus the flag combinations --offline --enabled N and --disabled N --offline.",
- "C10": "Second relation: sequences of one to three exclusion units inserted at every between-rules gap must only shift the line numbers of what follows; payloads include multi-byte text.",
- "C11": "Workloads also cover the same files reached under several spellings of their path and files with lone-CR line breaks.",
+ "C06": "Plus documents embedded one or two block scalars deep, and a caret monitor: the real InjectDiagnostics is rendered for sampled sub-ranges of every correctly positioned field (values with multi-byte characters mixed in) and the carets must sit under exactly the addressed characters. Also text hidden by ignore/line inside a literal block scalar and values containing ' #'.",
+ "C07": "Plus pairs of comments for the same check (expired snooze before/after, same comment twice) and `pint watch` runs in which snoozes expire while the process lives, judged per iteration on the times pint itself recorded. Configurations with only the first rule block locked, and two Prometheus servers with different tags.",
+ "C08": "Plus the flag combinations --offline --enabled N and --disabled N --offline. And --disabled N(server) for one instance of an online check on two servers, with and without --offline.",
+ "C10": "Second relation: sequences of one to three exclusion units inserted at every between-rules gap must only shift the line numbers of what follows; payloads include multi-byte text, lines longer than any read buffer and line breaks YAML knows and the line reader does not.",
+ "C11": "Workloads also cover the same files reached under several spellings of their path and files with lone-CR line breaks, and an online workload of rules that differ only in `offset`.",
  "C13": "Plus scenarios in which one or more slices are never delivered (client deadline, caller cancellation, 13 server-side failure kinds) while the others answer: a nil error with an incomplete result is a violation; a second healthy query checks nothing was remembered as empty.",
- "C14": "Plus range questions asked by callers with their own logical now (moving last slice) under sequential, burst and wave arrival.",
- "C15": "Plus failures delivered in the body of a 2xx response on every endpoint, and bursts of distinct requests that queue inside pint on a healthy but throttled upstream (k reported timeouts on c workers need a window of ceil(k/c) x timeout).",
- "C16": "Expressions include joins against an always-returning side; selectors under an `or vector(n)` fallback are documented exemptions. Thorough tier only: a nine-minute `pint watch` run in which a metric appears on the server; an iteration starting more than cache lifetime + sweep period + interval + 30 s later must not report it missing (bounded progress, judged on pint's own timestamps).",
- "C18": "Pattern values include ones whose validity depends on how they are wrapped before compilation.",
- "C19": "Wrappers include a rule list that is itself an item of a list.",
+ "C14": "Plus range questions asked by callers with their own logical now (moving last slice) under sequential, burst and wave arrival. Plus cache cleanup passes between two asks of one question, and worker pools sized from a configuration file (static block and discovery templates) through the real config.Load.",
+ "C15": "Plus failures delivered in the body of a 2xx response on every endpoint, and bursts of distinct requests that queue inside pint on a healthy but throttled upstream (k reported timeouts on c workers need a window of ceil(k/c) x timeout). Plus sequences of requests on one failover group whose upstreams change fault mode between requests (outage and recovery, flapping, random walks).",
+ "C16": "Expressions include joins against an always-returning side; selectors under an `or vector(n)` fallback are documented exemptions. Thorough tier only: a nine-minute `pint watch` run in which a metric appears on the server; an iteration starting more than cache lifetime + sweep period + interval + 30 s later must not report it missing (bounded progress, judged on pint's own timestamps). Metric names that differ only in letter case are part of the vocabulary.",
+ "C18": "Pattern values include ones whose validity depends on how they are wrapped before compilation. Plus filepath discovery whose template renders a captured directory name with metacharacters into every templated field.",
+ "C19": "Wrappers include a rule list that is itself an item of a list. Also lists whose first item is a plain scalar and rule lists kept as text in a block scalar.",
+ "C12": "Join templates include an operation with ignoring(L) on a left side that guarantees L and another label, joined again.",
  "C20": "Plus files that lose a rule and gain an unparsable bystander rule.",
 }
 for _i, _t in ADDENDA.items():
